@@ -74,6 +74,16 @@ pub const MAX_RELEASERS: usize = 4;
 /// because releases are capped by the configuration.
 pub const REQUESTS: [usize; 7] = [0, 1, 2, 3, (u32::MAX as usize).wrapping_add(1), (u32::MAX as usize).wrapping_add(3), usize::MAX];
 
+/// Initial permits: cfg.x itself, or (wide domain, x >= 4) the largest count that still leaves
+/// room for every release of the history: `usize::MAX - release_cap`.
+fn initial_permits(cfg: &Cfg) -> usize {
+    if cfg.mode & 2 != 0 && cfg.x >= 4 {
+        usize::MAX - cfg.y as usize
+    } else {
+        cfg.x as usize
+    }
+}
+
 fn request(arg: u8) -> usize {
     REQUESTS[arg as usize % REQUESTS.len()]
 }
@@ -102,6 +112,7 @@ impl World for SemaphoreWorld {
         for flavour in [FL_LOCAL, FL_SHARED_CHECKED] {
             for mode in [2u8, 3] {
                 v.push(Cfg { flavour, mode, x: 3, y: 12, k });
+                v.push(Cfg { flavour, mode, x: 4, y: 12, k });
             }
         }
         v
@@ -113,12 +124,14 @@ impl World for SemaphoreWorld {
                 v.push((Cfg { flavour: FL_CHECKED, mode, x: 0, y: 2, k: 2 }, 64));
                 v.push((Cfg { flavour: FL_CHECKED, mode, x: 1, y: 3, k: 2 }, 64));
                 v.push((Cfg { flavour: FL_CHECKED, mode: mode | 2, x: 2, y: 2, k: 2 }, 5));
+                v.push((Cfg { flavour: FL_CHECKED, mode: mode | 2, x: 4, y: 2, k: 2 }, 5));
             } else {
                 for (x, y) in [(0u8, 3u8), (1, 3), (2, 3), (3, 4)] {
                     v.push((Cfg { flavour: FL_CHECKED, mode, x, y, k: 3 }, 200));
                 }
                 v.push((Cfg { flavour: FL_SHARED_CHECKED, mode, x: 1, y: 3, k: 2 }, 200));
                 v.push((Cfg { flavour: FL_CHECKED, mode: mode | 2, x: 2, y: 3, k: 2 }, 7));
+                v.push((Cfg { flavour: FL_CHECKED, mode: mode | 2, x: 4, y: 3, k: 2 }, 7));
             }
         }
         v
@@ -160,7 +173,14 @@ impl World for SemaphoreWorld {
         }
     }
     fn cfg_desc(&self, cfg: &Cfg) -> String {
-        format!("semaphore flavour={} fair={} initial_permits={} release_cap={} slots={}", flavour_name(cfg.flavour), cfg.mode & 1 == 1, cfg.x, cfg.y, cfg.k) + if cfg.mode & 2 != 0 { " requests=0..3 and beyond 2^32" } else { "" }
+        format!(
+            "semaphore flavour={} fair={} initial_permits={} release_cap={} slots={}",
+            flavour_name(cfg.flavour),
+            cfg.mode & 1 == 1,
+            if initial_permits(cfg) > 3 { format!("usize::MAX-{}", cfg.y) } else { cfg.x.to_string() },
+            cfg.y,
+            cfg.k
+        ) + if cfg.mode & 2 != 0 { " requests=0..3 and beyond 2^32" } else { "" }
     }
     fn class_names(&self) -> &'static [&'static str] {
         CLASS_NAMES
@@ -252,13 +272,13 @@ fn run_m<M: RawMutex>(cfg: &Cfg, ops: &[Op], run: &mut Run) {
     tls::reset_history();
     let fair = cfg.mode & 1 == 1;
     let shared = cfg.flavour >= FL_SHARED;
-    let initial = cfg.x as usize;
+    let initial = initial_permits(cfg);
     let cap = cfg.y as usize;
     if fair {
         run.class(CL_FAIR);
     }
     // an arithmetic overflow in the permit accounting is an over-grant
-    run.panic_also = Some("C05");
+    run.panic_also = Some(("C05", "overflow"));
     // for the shared flavour the handles live in a Vec that is never emptied while futures need
     // a handle to be created; the last handle is only dropped at teardown
     let sem: Sem<M> =
@@ -268,7 +288,9 @@ fn run_m<M: RawMutex>(cfg: &Cfg, ops: &[Op], run: &mut Run) {
     let mut slots: Vec<Slot<SemFut<'_, M>>> = (0..k).map(|i| Slot::new(i as u8)).collect();
     let mut held: Vec<Held<'_, M>> = Vec::new();
     let mut ledger: usize = initial;
-    let mut released_total: usize = initial;
+    // bounded by the configuration's release cap; a huge initial count does not count towards it
+    // (it leaves exactly `cap` permits of head room below usize::MAX)
+    let mut released_total: usize = if initial > 3 { 0 } else { initial };
     let mut snap = Snapshot::default();
     let mut order: Vec<(u8, u8, u8, u8, u64)> = Vec::new();
 
@@ -672,7 +694,7 @@ fn monitors<M: RawMutex>(
         let mut hs: Vec<(usize, bool)> = held.iter().map(|x| (x.amount, x.armed)).collect();
         hs.sort_unstable();
         for (a, ar) in hs {
-            h.u8(a as u8);
+            h.u64(a as u64);
             h.u8(ar as u8);
         }
         h.u8(0xfe);
